@@ -5,36 +5,46 @@ import runlib as R
 ID = 'C16'
 COQ_TARGETS = ['Props/Properties_C16.vo']
 PROPS_FILES = ['Props/Properties_C16.v']
-THEOREMS = ['C16_finddomain', 'C16_fd_entries', 'C16_finddomain_property', 'C16_finddomain_orig_overread',
+THEOREMS = ['C16_finddomain', 'C16_fd_entries', 'C16_finddomain_property', 'C16_finddomain_orig_overread', 'C16_matchdomain',
             'C16_ip4_matchnet', 'C16_ip6_matchnet', 'C16_ipbl4', 'C16_ipbl6', 'C16_ipbl_bad_size', 'C16_ipbl_records',
             'C16_ipbl_orig_lazy', 'C16_loadlist', 'C16_line_entry_cases', 'C16_loadint', 'C16_loadint_orig_silent']
-OPS = ('fd', 'ff', 'a4', 'a6', 'b4', 'b6', 'bf', 'c0', 'c1', 'c2', 'c3', 'c4', 'c5', 'c6')
+OPS = ('fd', 'ff', 'ad', 'a4', 'a6', 'b4', 'b6', 'bf', 'c0', 'c1', 'c2', 'c3', 'c4', 'c5', 'c6')
 ENGINES = [dict(name='control', c_sources=['control_h.c'], extract='Extract/Extract_control.v', driver='control_driver.ml',
                 accepts=lambda c: c.split(' ', 1)[0] in OPS)]
 RULE = ('cases = (a) domain lists over the alphabet {name characters, dot, blank, tab, #, backslash, LF, CR, NUL, 8-bit} with 0-8 lines, '
-        'with/without final LF, runs of LF, comment lines, trailing blanks, and query names derived from the entries (equal, case changed, '
-        'with a label in front, suffix without the dot, prefix, one byte changed) or unrelated; the list is mapped so that its end touches a '
-        'PROT_NONE page (op fd) or read through a real file with flock+mmap (op ff); (b) address/network/prefix triples for ip4_matchnet / '
-        'ip6_matchnet with every prefix 0..32 / 0..128 (and the UB range above), network = client with bits flipped around the prefix '
-        'boundary; (c) binary IP lists with 0-6 records, prefix bytes 0..255 biased to 7,8,9,31,32,33,127,128,129, sizes that are / are not '
-        'multiples of the record size, an invalid record before / after a matching one; non-trivial = the implementation answered '
-        '"match" or "malformed" or the list had at least two entries; distinct by case text')
+        'with/without final LF, runs of LF, comment lines, trailing/leading blanks, and query names derived from the entries (equal, case changed, '
+        'label glued in front, label + dot in front, suffix without the dot, prefix, one byte changed, the comment line itself) or unrelated; the '
+        'list is mapped so that its end touches a PROT_NONE page (op fd) or read through a real temp file with flock+mmap (op ff); name/entry '
+        'pairs of the same shapes for matchdomain (op ad); (b) address/network/prefix triples for ip4_matchnet / ip6_matchnet with every prefix '
+        '0..39 / 0..135 (the range above 32 / 128 is UB and only compared with the model\'s Crash), network = client with bits flipped at '
+        'prefix-1, prefix, prefix+1; (c) binary IP lists (ops b4 b6 on a guard page, bf through lookupipbl on a real file) with 0-6 records, '
+        'prefix bytes 0..255 biased to 7,8,9,31,32,33,127,128,129, sizes that are / are not multiples of the record size, an invalid record '
+        'before / after a matching one; (d) text files for lloadfilefd modes 0-3, loadlistfd, loadonelinerfd (ops c0-c4, c6; real files) over '
+        'words, trailing blanks, comment lines, comments after entries, escaped #, blank-then-comment, inner and leading blanks, NUL, CR, empty '
+        'lines, with/without final LF; (e) numeric files (op c5): numerals around 2^32 and 2^64, leading zeros, comment/empty line first, two '
+        'numbers, signs, CR/VT/FF, trailing garbage, only comments, NUL. non-trivial = the implementation answered match / malformed / error '
+        'or returned at least one entry; distinct by case text')
 TRUSTED_BASE = [
-    'Coq 8.16.1 kernel (coqc; coqchk in thorough); vm_compute in the non-vacuity examples and refutation witnesses only',
-    'axioms: none (Print Assumptions: Closed under the global context)',
+    'Coq 8.16.1 kernel (coqc; coqchk in thorough); vm_compute in the non-vacuity examples and the recorded witnesses of the unpatched code only',
+    'axioms: none (Print Assumptions: Closed under the global context for every C16 theorem)',
     'translator tools/translators/control.py: regexes over lib/control.c, lib/match.c, qsmtpd/antispam.c produce the character constants, '
-    'striptab modes, word size and prefix bounds in coq/Gen/GenControl.v and test the presence of the statements the models transcribe',
-    'hand-written models coq/Model/FindDomain.v, MatchNet.v, LoadFile.v tied to the C by the correspondence run (differential testing, bounded by the generator)',
+    'striptab modes, word size, prefix bounds and digit bounds in coq/Gen/GenControl.v and test the presence of the statements the models '
+    'transcribe (bounded newline skip, validation loop before matching loop, single-line/ERANGE tests of loadintfd, ...)',
+    'hand-written models coq/Model/FindDomain.v, MatchNet.v, LoadFile.v tied to the C by the correspondence run (differential testing, bounded by the generator); '
+    'compact_buffer (in-place memmove) and data_array (realloc + pointer table) are modelled by their functional result',
     'sizeof(struct in_addr) = 4, sizeof(struct in6_addr) = 16, little-endian host: typed into the model, _Static_assert in the harness',
-    'glibc strncasecmp / strtoul / memchr in the C locale as modelled (ASCII case folding; strtoul: isspace skip, optional sign, saturation)',
-    'extraction with ExtrOcamlBasic only; ocaml/glue.ml + ocaml/control_driver.ml hex parsing/printing',
+    'glibc memchr / strncasecmp / strcasecmp / strtoul / strlen in the C locale as modelled (ASCII case folding; strtoul on a digit-led string: all digits consumed, ERANGE above 2^64-1)',
+    'extraction with ExtrOcamlBasic only; ocaml/glue.ml + ocaml/control_driver.ml hex parsing/printing (decimal printing of N by the driver)',
     'C harness harness/control_h.c: #include of the four C files; guard page placement; real temp files; gcc 12 -O1 ASan+UBSan vs. production build',
 ]
 ASSUMPTIONS = [
-    'the file content does not change between fstat/mmap and the end of the lookup (flock(LOCK_SH) is taken by the callers)',
-    'open/flock/fstat/mmap/read succeed; their error paths (ENOLCK, ENOMEM, EISDIR, ...) are outside the model',
+    'the theorems are about the C with fixes/C16-finddomain-bound.diff, C16-ipbl-validate-first.diff and C16-loadint-strict.diff applied (the translator refuses the unpatched statements)',
+    'the file content does not change between fstat/mmap/read and the end of the lookup (flock(LOCK_SH) is taken by the C)',
+    'open/flock/fstat/mmap/read/malloc/realloc succeed; their error paths (ENOLCK, ENOMEM, EISDIR, short reads) are outside the model',
     'the query name is a C string (no NUL); for the reading "equals an entry or ends with a dot-led entry" the name does not itself start with a dot',
-    'address bytes are octets (< 256); prefix argument of ip4_matchnet <= 32, of ip6_matchnet <= 128 (larger values are UB in the C; check_ipbl_file never passes them)',
+    'address bytes are octets (< 256); prefix argument of ip4_matchnet <= 32, of ip6_matchnet <= 128 (larger values are UB in the C; check_ipbl_file never passes them: proved)',
+    'loadlistfd is modelled without a check callback (cf = NULL); the callback path (rejected entries) belongs to C20',
+    'lloadfilefd modes 0, 1, 2 and loadonelinerfd are covered by the correspondence run only',
 ]
 
 
@@ -68,8 +78,8 @@ def _fd_line(rng, pool):
         e = bytes(rng.choice(b' \t') for _ in range(rng.randrange(1, 3))) + _name(rng)      # leading blank
     else:
         e = bytes(rng.choice([0, 13, 46, 35, 92, 128, 255, 97, 65]) for _ in range(rng.randrange(1, 6)))
-    if e and e[:1] not in (b'#',) and not e.isspace():
-        pool.append(e)
+    if e and (e[:1] != b'#' or rng.random() < 0.5) and not e.isspace():
+        pool.append(e)                                  # comment lines too: a query equal to one must not match
     if rng.random() < 0.3:
         e += bytes(rng.choice(b' \t') for _ in range(rng.randrange(1, 4)))
     return e
@@ -217,6 +227,20 @@ def gen_cases(engine, rng, tier):
     for _ in range(900 * mult):
         buf, q = _fd_case(rng)
         out.append('%s %s %s' % ('ff' if rng.random() < 0.15 else 'fd', R.hx(buf), R.hx(q)))
+    for _ in range(250 * mult):
+        pool = []
+        _fd_line(rng, pool)
+        e = (rng.choice(pool) if pool else _name(rng)).replace(b'\0', b'x') or b'a'
+        k = rng.random()
+        if k < 0.2: q = e
+        elif k < 0.35: q = _swapcase(rng, e)
+        elif k < 0.5: q = _label(rng) + e
+        elif k < 0.6: q = _label(rng) + b'.' + e
+        elif k < 0.7: q = e.lstrip(b'.')
+        elif k < 0.8: q = e[1:]
+        elif k < 0.9: q = e[:-1] + bytes([rng.choice(NAMECH)])
+        else: q = _name(rng)
+        out.append('ad %s %s' % (R.hx(q), R.hx(e)))
     for m in list(range(0, 40)) * (2 * mult) + [rng.choice(MASKS) for _ in range(60 * mult)]:
         ip = _ip16(rng, True)
         out.append('a4 %s %s %02x' % (R.hx(ip), R.hx(_net_for(rng, ip[12:], 32, min(m, 32))), m))
@@ -241,6 +265,8 @@ def nontrivial(case, c_out):
     op = case.split(' ', 1)[0]
     if op in ('fd', 'ff'):
         return c_out == 'R 1' or R.unhx(case.split(' ')[1]).count(b'\n') >= 2
+    if op == 'ad':
+        return c_out == 'R 1'
     if op in ('a4', 'a6'):
         return c_out in ('R 0', 'R 1') and case.split(' ')[3] != '00'
     if op in ('b4', 'b6', 'bf'):
@@ -256,14 +282,20 @@ def distribution(results):
     return d
 
 
-LEVEL_TEXT = ('Machine-checked Coq theorems over executable models of finddomain, ip4_matchnet, ip6_matchnet and check_ipbl_file: '
-              'for every list content and every name the lookup answers 1 exactly when an entry (non-comment line without trailing blanks) '
-              'equals the name case-insensitively or is a dot-led proper suffix of it, and no byte outside the mapping is read; '
-              'for every address, network and prefix length the matchers answer 1 exactly when the top prefix bits agree; '
-              'for every record sequence the binary list check answers -1 iff the size or any prefix length is invalid, else 1 iff the client '
-              'lies in a listed network. Constants are regenerated from the C on every run; the models are tied to the C by a differential run '
-              'under ASan/UBSan with the list mapped up to a PROT_NONE page.')
+LEVEL_TEXT = ('Machine-checked Coq theorems over executable models of finddomain, matchdomain, ip4_matchnet, ip6_matchnet, check_ipbl_file, '
+              'lloadfilefd(mode 3)+loadlistfd and loadintfd, each for all inputs: the domain lookup answers 1 exactly when an entry (non-comment '
+              'line without trailing blanks) equals the name case-insensitively or is a dot-led proper suffix of it, and never reads outside the '
+              'mapping; the matchers answer 1 exactly when the big-endian values agree after dropping the low (bits - prefix) bits, for every '
+              'prefix; the binary list check answers -1 iff the size or any prefix length is invalid (wherever the record stands), else 1 iff the '
+              'client lies in a listed network; loadlist returns exactly the non-empty entries of the lines (comment cut at an unescaped #, '
+              'trailing blanks stripped) or EINVAL iff a blank is followed by a non-blank; loadint returns the default / the single decimal '
+              'numeral <= 2^64-1 / EINVAL otherwise. Constants are regenerated from the C on every run; the models are tied to the C by a '
+              'differential run under ASan/UBSan with lists mapped up to a PROT_NONE page and real files for the loaders.')
 LEVEL_NOTE = ('Trusted: Coq kernel, translator regexes, extraction, harness, generator quality of the correspondence run, libc functions as modelled. '
-              'The theorems are about the C with fixes/C16-*.diff applied (bounded newline skip in finddomain; prefix validation before matching in check_ipbl_file).')
-TECHNIQUE = 'Coq proofs by induction over the line / record structure; bit-mask arithmetic via N.testbit; translator-regenerated constants; model-vs-C differential run with guard pages'
+              'The theorems are about the C with the three proposed fixes applied; the unpatched behaviour (over-read of list[size], lazy prefix '
+              'validation, numeric files read as 0 / first line only / sign / overflow accepted) is recorded as Coq witnesses on models of the '
+              'unpatched code and as corpus cases. lloadfilefd modes 0-2, loadonelinerfd, the wrappers finddomainfd/lookupipbl and the check '
+              'callback of loadlistfd are covered by correspondence only or not at all (callback).')
+TECHNIQUE = ('Coq proofs by induction over the line / record structure with fuel-irrelevance lemmas for the scanning loops; bit-mask arithmetic via '
+             'N.testbit and div/pow2 lemmas; translator-regenerated constants; model-vs-C differential run with guard pages and real files')
 DESIGN_REF = 'DESIGN.md section 5, C16; section 7 F-C16-1, F-C16-2'
